@@ -404,7 +404,10 @@ def transpile_structure(
             vyxal.structure.ForLoop,
             vyxal.structure.WhileLoop,
         ):
-            return indent_str("break", indent)
+            # the loop body pushed its context value; undo that before leaving
+            return indent_str("ctx.context_values.pop()", indent) + indent_str(
+                "break", indent
+            )
         elif struct.parent_structure == vyxal.structure.FunctionDef:
             return (
                 indent_str("ctx.inputs.pop()", indent)
@@ -429,7 +432,9 @@ def transpile_structure(
             vyxal.structure.ForLoop,
             vyxal.structure.WhileLoop,
         ):
-            return indent_str("continue", indent)
+            return indent_str("ctx.context_values.pop()", indent) + indent_str(
+                "continue", indent
+            )
         elif struct.parent_structure == vyxal.structure.FunctionDef:
             return indent_str(
                 "stack.append(this(stack, this, ctx=ctx))", indent
